@@ -12,18 +12,39 @@ use reactive_graph::{computed::ScopedFuture, owner::Owner};
 pub struct OwnedView<T> {
     owner: Owner,
     view: T,
+    // whether streaming this view should keep the owner alive by stuffing it into the cleanups of
+    // the owner that is current at that point
+    keep_alive: bool,
 }
 
 impl<T> OwnedView<T> {
     /// Wraps a view with the current owner.
     pub fn new(view: T) -> Self {
         let owner = Owner::current().expect("no reactive owner");
-        Self { owner, view }
+        Self {
+            owner,
+            view,
+            keep_alive: true,
+        }
     }
 
     /// Wraps a view with the given owner.
     pub fn new_with_owner(view: T, owner: Owner) -> Self {
-        Self { owner, view }
+        Self {
+            owner,
+            view,
+            keep_alive: true,
+        }
+    }
+
+    /// Wraps a view with an owner that is kept alive by something else for as long as the view is
+    /// rendered: rendering the view only runs it under that owner.
+    pub(crate) fn new_with_borrowed_owner(view: T, owner: Owner) -> Self {
+        Self {
+            owner,
+            view,
+            keep_alive: false,
+        }
     }
 }
 
@@ -78,10 +99,15 @@ where
     where
         Self::Output<NewAttr>: RenderHtml,
     {
-        let OwnedView { owner, view } = self;
+        let OwnedView {
+            owner,
+            view,
+            keep_alive,
+        } = self;
         OwnedView {
             owner,
             view: view.add_any_attr(attr),
+            keep_alive,
         }
     }
 }
@@ -139,7 +165,9 @@ where
         // has actually happened
         // instead, we'll stuff it into the cleanups of its parent so that it will remain alive at
         // least as long as the parent does
-        Owner::on_cleanup(move || drop(self.owner));
+        if self.keep_alive {
+            Owner::on_cleanup(move || drop(self.owner));
+        }
     }
 
     fn hydrate<const FROM_SERVER: bool>(
@@ -154,11 +182,19 @@ where
     }
 
     async fn resolve(self) -> Self::AsyncOutput {
-        let OwnedView { owner, view } = self;
+        let OwnedView {
+            owner,
+            view,
+            keep_alive,
+        } = self;
         let view = owner
             .with(|| ScopedFuture::new(async move { view.resolve().await }))
             .await;
-        OwnedView { owner, view }
+        OwnedView {
+            owner,
+            view,
+            keep_alive,
+        }
     }
 
     fn dry_resolve(&mut self) {
@@ -169,6 +205,7 @@ where
         OwnedView {
             owner: self.owner,
             view: self.view.into_owned(),
+            keep_alive: self.keep_alive,
         }
     }
 }
